@@ -40,6 +40,7 @@ def run(ctx):
     ctx.each(r16q, ctx, repo)
     ctx.each(r16r, ctx, repo)
     ctx.each(r16s, ctx, repo)
+    ctx.each(r16ab, ctx, repo)
     ctx.each(pop_matrix_rows_rule, ctx, repo, "R16aa")
     ctx.each(informational, ctx, repo)
 
@@ -949,3 +950,41 @@ def pop_matrix_rows_rule(ctx, repo, rule):
             except A.NotPolynomial:
                 ok = False
     ctx.check(ok, rule, fi, nr[-1] if nr else fi.node, "next free row = start_row + 1 + len(%s) + 1 (rows are %s)" % (rowc, rowc), "`%s` does not advance by the number of rows written (one per element of `%s`, whose index offsets the row of the headings) plus the header and one blank row: the following table overlaps the matrix, or floats away from it" % (norm(nr[-1])[:80] if nr else "next_row", rowc), stmt_text="pop-matrix-next-row")
+
+
+def r16ab(ctx, repo):
+    from ..core import boolx as B
+    from ..core.cfg import branch_guards
+
+    ctx.rule("R16ab", "every transfer and interaction on the sheet is read: ProjectData._read_transfers / _read_interpops walk the tables three at a time from the first one (`range(0, len(tables), 3)`), build each connection from exactly its own three tables (`tables[i : i + 3]`) with the kind that matches the sheet ('transfer' / 'interaction'), refuse a name they have already seen, and append every other connection to self.transfers / self.interpops - siblings that differ only in the kind and the destination list")
+    shapes_ = []
+    for q, kind, dest in (("ProjectData._read_transfers", "transfer", "transfers"), ("ProjectData._read_interpops", "interaction", "interpops")):
+        fi = repo.func("data", q)
+        me = fi.params[0]
+        loops = [l for l in own_nodes(fi.node) if isinstance(l, ast.For) and isinstance(l.iter, ast.Call) and ast.unparse(l.iter.func) == "range"]
+        ok = len(loops) == 1 and [ast.unparse(a) for a in loops[0].iter.args] == ["0", "len(tables)", "3"] and isinstance(loops[0].target, ast.Name)
+        ctx.check(ok, "R16ab", fi, loops[0] if loops else fi.node, "tables walked three at a time from the first", "%s does not iterate `range(0, len(tables), 3)`: the first connection is skipped, or tables of neighbouring connections are mixed" % q, stmt_text="walk")
+        if not ok:
+            continue
+        lp, i = loops[0], loops[0].target.id
+        mk = [c for c in ast.walk(lp) if isinstance(c, ast.Call) and ast.unparse(c.func) == "TimeDependentConnections.from_tables"]
+        okm = len(mk) == 1 and len(mk[0].args) >= 2 and isinstance(mk[0].args[0], ast.Subscript) and ast.unparse(mk[0].args[0].value) == "tables" and isinstance(mk[0].args[0].slice, ast.Slice) and ast.unparse(mk[0].args[0].slice.lower) == i and _alg_same(mk[0].args[0].slice.upper, "%s + 3" % i) and isinstance(mk[0].args[1], ast.Constant) and mk[0].args[1].value == kind
+        ctx.check(okm, "R16ab", fi, enclosing_stmt(mk[0]) if mk else lp, "connection built from tables[i : i + 3] as a '%s'" % kind, "%s does not build each connection with `TimeDependentConnections.from_tables(tables[%s : %s + 3], '%s')`" % (q, i, i, kind), stmt_text="build")
+        var = enclosing_stmt(mk[0]).targets[0].id if mk and isinstance(enclosing_stmt(mk[0]), ast.Assign) else None
+        ap = [c for c in ast.walk(lp) if isinstance(c, ast.Call) and ast.unparse(c.func) == "%s.%s.append" % (me, dest)]
+        oka = len(ap) == 1 and var is not None and ast.unparse(ap[0].args[0]) == var and not branch_guards(enclosing_stmt(ap[0]), stop=lp)
+        ctx.check(oka, "R16ab", fi, enclosing_stmt(ap[0]) if ap else lp, "every connection appended to self.%s" % dest, "%s does not append every connection it reads to `self.%s`" % (q, dest), stmt_text="append")
+        rs = [r for r in ast.walk(lp) if isinstance(r, ast.Raise)]
+        okd = len(rs) == 1 and var is not None and B.equivalent(B.cond(branch_guards(rs[0], stop=lp)), B.parse_cond("%s.code_name in names" % var)) and any(isinstance(c, ast.Call) and ast.unparse(c.func) == "names.add" and ast.unparse(c.args[0]) == "%s.code_name" % var and not branch_guards(enclosing_stmt(c), stop=lp) for c in ast.walk(lp))
+        ctx.check(okd, "R16ab", fi, rs[0] if rs else lp, "a repeated name is refused", "%s does not refuse a connection whose code name was already read (and remember every name it reads)" % q, stmt_text="duplicate")
+        init = [s_ for s_ in fi.node.body if isinstance(s_, ast.Assign) and ast.unparse(s_.targets[0]) == "%s.%s" % (me, dest) and isinstance(s_.value, (ast.List, ast.Call))]
+        ctx.check(len(init) == 1 and init[0].lineno < lp.lineno, "R16ab", fi, init[0] if init else fi.node, "self.%s starts empty" % dest, "%s does not start from an empty `self.%s`: reading a sheet twice (or after editing) keeps the old connections" % (q, dest), stmt_text="init")
+
+
+def _alg_same(node, text):
+    from ..core import algebra as A
+
+    try:
+        return node is not None and A.poly(node) == A.poly(A.parse(text))
+    except A.NotPolynomial:
+        return False
